@@ -24,7 +24,7 @@ PROP = {  # commit subject keyword -> property
     "running out of compiler table space": "C05", "stored -1 for an unknown operand name": "C05", "alloc_regs[-1]": "C05",
     "aborted (ORC_ASSERT) on a scalar constant": "C05", "wider than ORC_MAX_VAR_SIZE": "C05", "c64x-c back end indexed": "C05",
     "an accumulator used as a source operand": "C05", "64 KiB code buffer": "C05", "instruction queue grew by ten": "C05", "fixup tables": "C05", "constant table (ORC_N_CONSTANTS": "C05",
-    "name the fourth accumulator a4": "C07", "orcc --compat below 0.4.6.1": "C07",
+    "name the fourth accumulator a4": "C07", "orcc --compat below 0.4.6.1": "C07", "calls to a .backup function": "C07",
     "NEON 16-bit accumulator reduction": "C12",
     "operand named nan/inf": "C15", "computed the 16.16 position in 32 bits": "C04",
     "prefixed loadX/storeX read and wrote the wrong elements": "C02", "__sync implementation of OrcOnce": "C08",
